@@ -27,6 +27,8 @@ import (
 	"sync"
 	"sync/atomic"
 	"time"
+
+	syscall "golang.org/x/sys/unix"
 )
 
 // Session is used to wrap a reliable ordered connection and to
@@ -90,6 +92,12 @@ type Session struct {
 	manager   *SessionManager
 	listener  *Listener
 	mu        sync.Mutex
+
+	// connFile is the dup'ed connection the session owns until the event loop takes it over.
+	connFile *os.File
+	// initState tells who closes connFile when the handshake is given up on a timeout:
+	// 0 handshake running, 1 handshake goroutine finished, 2 abandoned by newSession.
+	initState uint32
 }
 
 // sendReady is used to either mark a stream as ready
@@ -132,6 +140,7 @@ func newSession(config *Config, conn net.Conn, isClient bool) (*Session, error) 
 	s := &Session{
 		config:                config,
 		dispatcher:            defaultDispatcher,
+		connFile:              fd,
 		connFd:                int(fd.Fd()),
 		netConn:               conn,
 		logger:                newSessionLogger(isClient, config.LogOutput),
@@ -153,6 +162,7 @@ func newSession(config *Config, conn net.Conn, isClient bool) (*Session, error) 
 	}
 
 	if err := s.initMemManager(); err != nil {
+		_ = fd.Close()
 		return nil, fmt.Errorf("create share memory buffer manager failed ,error=%w", err)
 	}
 	if err := s.initProtocol(); err != nil {
@@ -161,6 +171,11 @@ func newSession(config *Config, conn net.Conn, isClient bool) (*Session, error) 
 		}
 		if s.bufferManager != nil {
 			addGlobalBufferManagerRefCount(s.bufferManager.path, -1)
+		}
+		// the dup'ed connection is ours to close, unless the handshake goroutine is still
+		// running on it (timeout): then that goroutine closes it when it returns.
+		if atomic.LoadUint32(&s.initState) != 2 {
+			_ = fd.Close()
 		}
 		return nil, err
 	}
@@ -173,6 +188,7 @@ func newSession(config *Config, conn net.Conn, isClient bool) (*Session, error) 
 	s.mu.Unlock()
 	s.eventConn = s.dispatcher.newConnection(fd)
 	if err := s.eventConn.setCallback(s); err != nil {
+		_ = fd.Close()
 		return nil, err
 	}
 	//currently, netConn only using for get remote address and local address.
@@ -196,6 +212,12 @@ func (s *Session) initProtocol() error {
 	defer timeout.Stop()
 
 	go func() {
+		defer func() {
+			if !atomic.CompareAndSwapUint32(&s.initState, 0, 1) {
+				// newSession gave up on a timeout and left the connection to us
+				_ = s.connFile.Close()
+			}
+		}()
 		// initializing protocol , maybe block
 		protoAdaptor := newProtocolAdaptor(s)
 		initializer, err := protoAdaptor.getProtocolInitializer()
@@ -216,6 +238,11 @@ func (s *Session) initProtocol() error {
 	case err := <-resultCh:
 		return err
 	case <-timeout.C:
+		if atomic.CompareAndSwapUint32(&s.initState, 0, 2) {
+			// the handshake goroutine is still blocked on the connection: shut the
+			// connection down so that it returns, it closes the file on its way out.
+			_ = syscall.Shutdown(s.connFd, syscall.SHUT_RDWR)
+		}
 		return fmt.Errorf("protocolInitializer init timeout:%d ms",
 			s.config.InitializeTimeout/time.Millisecond)
 	}
